@@ -491,6 +491,25 @@ impl Scenario for Roundtrip {
                 let mut ops = vec![];
                 let mut used = vec![];
                 let mut rp = Rng::derive(s, "c17-pre");
+                {
+                    // "every preceding archive state" includes an archive from elsewhere, opened for append, that has
+                    // data in front of it (a stub): its recorded offsets are relative to the archive, the bytes the
+                    // aligned entry must sit on are those of the file
+                    let mut rb = Rng::derive(s, "c17-base");
+                    if rb.chance(1, 10) {
+                        let mut l = gen_layout(&mut rb, 3, 200, false);
+                        l.trailing = 0;
+                        l.force_z64_end = false;
+                        l.prefix = rb.pickc(&[1u32, 2, 3, 5, 22, 63, 100, 513, 4097]) + rb.below(3) as u32;
+                        l.prefix_seed = rb.next_u64();
+                        for e in l.entries.iter_mut() {
+                            e.dd = 0;
+                        }
+                        base = Some(Source::Built(l));
+                        start_pos = 0;
+                        ops.push(Op::Append);
+                    }
+                }
                 for _ in 0..r.range(1, 5) {
                     // what precedes the aligned / extra-data entry: nothing, or an entry of another kind that leaves
                     // its own state behind in the writer (raw copy, writer reopened for append, directory, symlink,
